@@ -2,7 +2,10 @@
 
 package simrt
 
-import "runtime"
+import (
+	"runtime"
+	"unsafe"
+)
 
 const RaceBuild = true
 
@@ -11,3 +14,9 @@ func raceOff() { runtime.RaceDisable() }
 
 //go:norace
 func raceOn() { runtime.RaceEnable() }
+
+//go:norace
+func raceRelease(p unsafe.Pointer) { runtime.RaceReleaseMerge(p) }
+
+//go:norace
+func raceAcquire(p unsafe.Pointer) { runtime.RaceAcquire(p) }
